@@ -194,6 +194,17 @@ def do_op(k, name, a, b, text):
     elif name == "arr_weights":
         arr(k, simlib.arrWeights(prepared(("aw", a), lambda: [i + 1 for i in range(a)]),
                                  prepared(("aw2", b), lambda: [2 + j for j in range(b)])))
+    elif name == "bad_char_arr":
+        def mkb():
+            out_ = ["w" * (i % 4) + "" for i in range(a + 1)]
+            out_[1 + b % a] = bad_value(1 + b % 5) if (1 + b % 5) != 1 else 17  # never a str / None
+            return out_
+        lst = prepared(("bca", a, b), mkb)
+        try:
+            simlib.charArrLen(lst, len(lst))
+            res(k, "NOERROR")
+        except BaseException as e:
+            res(k, "EXC", type(e).__name__)
     elif name == "bad_arr_weights":
         def mkw():
             lst = [2 + j for j in range(1 + b % 3)]
